@@ -31,7 +31,7 @@ Definition cli_ops (a : cli_args) : res (list pop) :=
   | SInvalid => Err EOther
   end.
 
-Definition cli_run (decA : str -> res plain) (encB : plain -> res str) (a : cli_args) (data : str) : res str :=
+Definition cli_run {SA SB : Type} (decA : SA -> res plain) (encB : plain -> res SB) (a : cli_args) (data : SA) : res SB :=
   match cli_ops a with
   | Ok ops => convert_plain_ops decA encB ops data
   | Err k => Err k
